@@ -403,6 +403,14 @@ def _sweep(rep, pp):
                     check(f"(z + (y {op} S1)) @ x == z + (y {op} (Pmat(S1) x))", f"two pending operations {op} {nm}",
                           lambda: (0.25 + f(y if nm == "float" else np.resize(yv, d1[3]), mk(d1))) @ x,
                           0.25 + f(y if nm == "float" else np.resize(yv, d1[3]), P1 @ x), inp, equal_nan=True)
+            # transposes of slicers that carry pending operations (the statement combines "chained and transposed slicers and pending
+            # right-operand operations"): (S0 @ S1).T = Pmat(S1)^T Pmat(S0)^T, (a * S1).T = a * Pmat(S1)^T
+            if len(set(d0[0])) == len(d0[0]) and len(set(d1[0])) == len(d1[0]):
+                sw.case(("transpose of pending", d0, d1), True)
+                check("(S0 @ S1).T @ y == (Pmat(S0) Pmat(S1))^T y", "transpose of a slicer with a pending slicer product", lambda: (mk(d0) @ mk(d1)).T @ yv,
+                      (P0 @ P1).T @ yv, inp)
+                y1 = np.resize(yv, d1[3])
+                check("(a * S1).T @ y == a * Pmat(S1)^T y", "transpose of a slicer with a pending scalar factor", lambda: (2.0 * mk(d1)).T @ y1, 2.0 * (P1.T @ y1), inp)
             M = sps.csr_matrix(np.array([[rng.choice([0, 1.0, 2.0]) for _ in range(d0[3])] for _ in range(2)]))
             check("(M @ (S0 @ S1)) @ x == M Pmat(S0) Pmat(S1) x", "pending @ on a chain", lambda: (M @ (mk(d0) @ mk(d1))) @ x, M @ (P0 @ P1 @ x), inp)
             if c2:
